@@ -119,7 +119,7 @@ Fixpoint in_eval (l : layer) (y : asg) : option cvec :=
       omap (fun p => let '(m, s, lz) := p in
               do ls <- clog s;
               let d := csub x m in
-              cexp (cadd (csub (csub (cmul (copp chalf) (cdiv (cmul d d) (cmul s s))) ls) (cmul chalf l2p)) lz))
+              cexp (cadd (csub (csub (cmul (copp chalf) (cround (cdiv (cmul d d) (cmul s s)))) ls) (cmul chalf l2p)) lz))
            (combine (combine (tvec c0 M) (tvec c0 S)) L)
   | LPoly v K deg c =>
       do Cf <- peval c;
@@ -159,6 +159,31 @@ Definition den_all (c : circuit) (y : asg) : option (list cvec) := den_from (nod
 (* the function the circuit denotes: one vector per output layer, in declared order *)
 Definition den (c : circuit) (y : asg) : option (list cvec) :=
   do vals <- den_all c y; Some (map (fun o => nth o vals []) (outs c)).
+
+(* ---------- parameter pre-evaluation (speeds up repeated evaluation; same denotation) ---------- *)
+Definition pval (e : pexpr) : option pexpr := do t <- peval e; Some (PTen 0 false t).
+Fixpoint prep_layer (l : layer) : option layer :=
+  match l with
+  | LEmb v K N w => do w' <- pval w; Some (LEmb v K N w')
+  | LCat v K N lg p => do p' <- pval p; Some (LCat v K N lg p')
+  | LBin v K n lg p => do p' <- pval p; Some (LBin v K n lg p')
+  | LGau v K mu sd lp =>
+      do mu' <- pval mu; do sd' <- pval sd;
+      match lp with
+      | Some e => do e' <- pval e; Some (LGau v K mu' sd' (Some e'))
+      | None => Some (LGau v K mu' sd' None)
+      end
+  | LPoly v K d c => do c' <- pval c; Some (LPoly v K d c')
+  | LConst K lsp v => do v' <- pval v; Some (LConst K lsp v')
+  | LEvi inner obs => do i' <- prep_layer inner; do o' <- pval obs; Some (LEvi i' o')
+  | LSum Ki Ko ar w => do w' <- pval w; Some (LSum Ki Ko ar w')
+  | LHad _ _ | LKron _ _ => Some l
+  end.
+Definition prep (c : circuit) : circuit :=
+  match omap (fun n => do l <- prep_layer (fst n); Some (l, snd n)) (nodes c) with
+  | Some ns => mkC ns (outs c)
+  | None => c
+  end.
 
 (* ---------- scopes, well-formedness, structural predicates ---------- *)
 Fixpoint scopes_from (ns : list (layer * list nat)) (acc : list (list nat)) : list (list nat) :=
